@@ -291,7 +291,7 @@ pub fn os_set_mode_of_created<T: PathArg>(p: T, mode: u32) -> (r: RvResult<()>)
     ensures r is Ok ==> os_mode_set(p.pc(), mode)
 { unimplemented!() }
 impl Stdfs {
-//@ item mkdir_m file=src/sys/fs/stdfs/mod.rs block="impl Stdfs" fn=mkdir_m props=C01,C11,C05,C12
+//@ item mkdir_m file=src/sys/fs/stdfs/mod.rs block="impl Stdfs" fn=mkdir_m props=C01,C11,C05,C12,C09
 //@ rw R3 1 for
 //@ rw R8 * ⟦fs::create_dir(&path)?;⟧ => ⟦os_create_dir(&path)?;⟧
 // "entries that already existed are kept": mkdir_m may set the mode only of a directory it has just created
